@@ -4,7 +4,7 @@ import vlib
 
 TARGETS = ["Base/Num.vo", "Base/Corr.vo", "C07/Model.vo", "C07/ModelNewton.vo", "C07/ModelNewtonMin.vo", "C07/Corr.vo", "C07/Spec.vo",
            "C07/SpecNewton.vo", "C07/SpecNewtonMin.vo", "C07/ProofsNewton.vo", "C07/ProofsNewtonMin.vo", "C07/ExamplesNewton.vo",
-           "C07/ExamplesNewtonMin.vo", "C07/ModelSaga.vo", "C07/SpecSaga.vo", "C07/ProofsSaga.vo", "C07/ExamplesSaga.vo", "C07/ModelBlahut.vo", "C07/ProofsBlahut.vo", "C07/ModelAdamGeneric.vo", "C07/ProofsAdamGeneric.vo",
+           "C07/ExamplesNewtonMin.vo", "C07/ModelSaga.vo", "C07/SpecSaga.vo", "C07/ProofsSaga.vo", "C07/ExamplesSaga.vo", "C07/ModelSagaJit.vo", "C07/ProofsSagaJit.vo", "C07/ExamplesSagaJit.vo", "C07/ModelBlahut.vo", "C07/ProofsBlahut.vo", "C07/ModelAdamGeneric.vo", "C07/ProofsAdamGeneric.vo",
            "C07/ProofsQuad.vo", "C07/ProofsBase.vo",
            "C07/ProofsRprop.vo", "C07/ProofsGD.vo", "C07/ProofsLS.vo", "C07/ProofsBfgs.vo", "C07/ProofsDense.vo", "C07/ProofsAdam.vo",
            "C07/Proofs.vo", "C07/Refuted.vo", "C07/Props.vo"]
@@ -15,13 +15,14 @@ PARTIAL = ("Theorems are about the hand-written oracle-machine models in coq/C07
            "minimiser within the cap' are not claimed. AD seed bookkeeping (Variables(1/2), the -t1 seeds of RunMin's "
            "phi) is checked by the tie, not proved. newton (RunRoot, RunCrit, RunMin and newton_min's back-tracking "
            "variant through the add-only hook algorithm/newton/verif_c07.go): getDirection (linear solve / LDL / eigenvalue "
-           "modification) is an oracle whose logged answers feed the replay. saga: math/rand's draws are an oracle (the "
-           "thread partition is C17's); the stop theorem is about the CODED test (F-SAGA-STOP-ZERO-PREFIX: it is not the "
-           "test over all coordinates). blahut: the iteration body (log/exp/pow) is a step oracle, tied through a "
+           "modification) is an oracle whose logged answers feed the replay. saga (the four template instances and sagaJit with JitUpdateL1): math/rand's draws are an oracle (the "
+           "thread partition is C17's); the stop theorem states the test over ALL coordinates (unconditional since fix "
+           "494d9f3; the pre-fix witness is a regression example and a corpus run). blahut: the iteration body (log/exp/pow) is a step oracle, tied through a "
            "lock-step re-implementation in the harness; blahut has no stop test of its own, the KKT clause is vacuous. "
-           "Constraint clause: proved for rprop, rprop_dense, adam_dense, newton_root, newton_min back-tracking; "
-           "_partial/refuted for lineSearch zoom (F-LS-ZOOM-CONS, also reaches bfgs), RunMin (F-NEWTON-MIN-CONS-LINE) and "
-           "adam.Run at the cap (F-ADAM-GENERIC-CAP). All theorems are fuel-relative (they hold for every fuel and say "
+           "Constraint clause: proved for rprop, rprop_dense, adam_dense, adam.Run (cap included since fix d91fb9b), "
+           "newton_root, newton_min back-tracking; "
+           "_partial/refuted for lineSearch zoom (F-LS-ZOOM-CONS, also reaches bfgs) and RunMin (F-NEWTON-MIN-CONS-LINE). "
+           "All theorems are fuel-relative (they hold for every fuel and say "
            "nothing when the model returns OutOfFuel): loops WITHOUT an iteration cap in the code are listed in "
            "'uncapped_loops' (hang findings are C20's).")
 
